@@ -33,6 +33,8 @@ MUTANTS = [
     {"name": "moved-to-other-slot-owner", "file": "src/proxy/cluster.rs", "old": "        match self.slot_map.get(slot) {\n            Some(addr) => {\n                if self.remote_backend.is_some() {", "new": "        match self.slot_map.get(slot + 1) {\n            Some(addr) => {\n                if self.remote_backend.is_some() {", "expect": "C02.D2"},
     {"name": "importing-precheck-installs-preblocking", "file": "src/migration/scan_task.rs", "old": "            MgrSubCmd::PreCheck => self.state.set_state(MigrationState::PreCheck),", "new": "            MgrSubCmd::PreCheck => self.state.set_state(MigrationState::PreBlocking),", "expect": "C02.D4:handshake-step:PreCheck"},
     {"name": "peers-collected-into-map", "file": "src/broker/query.rs", "old": "            .group_by(|node| node.get_proxy_address().to_string())\n            .into_iter()\n            .map(|(proxy_address, nodes)| {\n                // Collect all slots from masters.\n                let slots = nodes.flat_map(Node::into_slots).collect();\n                PeerProxy {\n                    proxy_address,\n                    slots,\n                }\n            })", "new": "            .map(|node| (node.get_proxy_address().to_string(), node.into_slots()))\n            .collect::<std::collections::BTreeMap<String, Vec<_>>>()\n            .into_iter()\n            .map(|(proxy_address, slots)| PeerProxy {\n                proxy_address,\n                slots,\n            })", "expect": "C02.D1:view-lossless"},
+    {"name": "importing-task-recreated-on-resync", "file": "src/migration/manager.rs", "old": "                        if let Some(importing_task) = old_task_map.get(&migration_meta) {\n                            migration_tasks.insert(migration_meta, importing_task.clone());\n                        }", "new": "                        let _ = migration_meta;\n                        continue;", "expect": "C02.D5:task-carried-over:Importing"},
+    {"name": "cluster-not-found-without-local-nodes", "file": "src/proxy/cluster.rs", "after": "impl<S: CmdTaskSender> LocalCluster<S> {", "old": "        if self.cluster_name.is_empty() {\n            return Err(ClusterSendError::ClusterNotFound { task: cmd_task });", "new": "        if self.local_backend.nodes.is_empty() {\n            return Err(ClusterSendError::ClusterNotFound { task: cmd_task });", "expect": "C02.D5:cluster-not-found-only-without-cluster"},
 ]
 
 
@@ -58,6 +60,7 @@ def run(ctx):
     ctx.rule("C02.D1", "positional plumbing of same-typed maps broker -> coordinator -> proxy; slot map inserts every range")
     ctx.rule("C02.D2", "dispatch order: migration map, then local cluster, then MOVED to the owner of the same slot; later stages only on SlotNotFound")
     ctx.rule("C02.D3", "node / proxy index tables of the broker view (exhaustive)", exhaustive=True)
+    ctx.rule("C02.D5", "`cluster not found` is answered only when the proxy has no cluster (empty cluster name), never because it hosts no master; re-applying metadata keeps the running migration tasks of both tags (their handshake state is not reset)")
     ctx.rule("C02.D4", "redirection bound and phase routing tables (only between source and destination)", exhaustive=True)
     _broker(ctx)
     _coordinator(ctx)
@@ -69,6 +72,8 @@ def run(ctx):
         tables_rules(ctx, "C02.D3", T)
     to_slot_range_rule(ctx, "C02.D3")
     _redirection(ctx)
+    _cluster_not_found(ctx)
+    _tasks_carried_over(ctx)
 
 
 def _filter_closure_table(ctx, F, c, address_cap="address"):
@@ -400,3 +405,66 @@ def _redirection(ctx):
     for s in st["states"]:
         ctx.check(not (st["migrating"][s] == "redirect-dst" and st["importing"][s] == "redirect-src"), "C02.D4", "no-ping-pong:%s" % s, None,
                   ok="no mutual redirection", bad="in state %s source and destination redirect to each other" % s)
+
+
+def _cluster_not_found(ctx):
+    """a proxy that hosts only replicas (or whose masters own no slots yet) has an empty local node table but a full peer table:
+    it must still answer MOVED.  ClusterNotFound may only come from the `no cluster name` test"""
+    from ..lib import branch_conditions
+    F = ctx.F
+    n = 0
+    for b in F.all_bodies(bins=False):
+        if b.is_mock() or b.kind == "Promoted" or "tests::" in b.path or not b.path.startswith(("proxy::cluster::", "<proxy::cluster::")):
+            continue
+        sites_ = [(bb, i, st) for bb, i, st in agg_sites(b, "ClusterSendError", "ClusterNotFound")]
+        if not sites_ or b.path.endswith(("::map_task", "::fmt")) or "ClusterSendError" in (b.impl_adt or ""):
+            continue
+        du = DefUse(b)
+        dom = cfg.dominators(b)
+        for bb, i, st in sites_:
+            n += 1
+            ctx.analysed(b)
+            ok = False
+            for d, discr, val in branch_conditions(b, bb, dom):
+                is_true = (val == 1) or (isinstance(val, tuple) and val[1] == [0])
+                sl = du.slice_operand(discr)
+                if is_true and sl.has_call("ClusterName::is_empty"):
+                    ok = True
+            ctx.check(ok, "C02.D5", "cluster-not-found-only-without-cluster:%s#%d" % (b.path.rsplit("::", 1)[-1], n), site(b, bb, i), ok="ClusterNotFound only on cluster_name.is_empty()",
+                      bad="%s answers ClusterNotFound on a condition other than an empty cluster name: a proxy without local masters (replica-only after a failover) stops consulting its peer table and clients starting there never reach the owner" % b.path)
+    ctx.floor("C02.D5", "ClusterNotFound constructions in proxy::cluster", n, 2)
+
+
+def _tasks_carried_over(ctx):
+    """MigrationMap::update_from_old_task_map: a tagged range that is present in the old and in the new metadata keeps its
+    task object - for the Migrating and for the Importing tag alike.  A recreated importing task starts in PreCheck again and
+    redirects to the source while the source already redirects to it (unbounded MOVED ping-pong)"""
+    F = ctx.F
+    b = F.one("MigrationMap::update_from_old_task_map")
+    tag = F.adt("common::cluster::SlotRangeTag")
+    if b is None or tag is None:
+        ctx.lost("C02.D5", "update_from_old_task_map", "not found")
+        return
+    ctx.analysed(b)
+    du = DefUse(b)
+    gets = [(bb, t) for bb, t in calls_to(b, "HashMap::get") if any(("migration::manager::MigrationMap", "task_map") in {(norm(a), n_) for a, n_ in du.slice_operand(x, deep=False).fields} or du.slice_operand(x, deep=False).has_param(1) for x in t["args"][:1])]
+    ins = [(bb, t) for bb, t in calls_to(b, "HashMap::insert") if len(t["args"]) > 2 and du.slice_operand(t["args"][2]).has_call("HashMap::get")]
+    if not (ctx.floor("C02.D5", "lookups in the old task map", len(gets), 1) and ctx.floor("C02.D5", "carried-over task insertions", len(ins), 1)):
+        return
+    # the tag switch that selects the arm: the discriminant read of a SlotRangeTag value
+    arms = {}
+    dom = cfg.dominators(b)
+    from ..lib import branch_conditions
+    for bb, t in ins:
+        for d, discr, val in branch_conditions(b, bb, dom):
+            pl = discr.get("mv") or discr.get("cp")
+            for df in du.defs.get(pl["l"], []) if pl else []:
+                if df[0] == "assign" and df[3]["rv"]["k"] == "discr":
+                    p_ = df[3]["rv"]["p"]
+                    fs = [(norm(a), n_) for a, n_ in place_fields(p_)]
+                    if (fs and fs[-1] == ("common::cluster::SlotRange", "tag")) or "SlotRangeTag" in b.locals[p_["l"]]["ty"]:
+                        if isinstance(val, int):
+                            arms[tag.variants[val]["name"]] = bb
+    for v in ("Migrating", "Importing"):
+        ctx.check(v in arms, "C02.D5", "task-carried-over:%s" % v, site(b, arms.get(v, ins[0][0])), ok="an existing %s task is kept" % v.lower(),
+                  bad="update_from_old_task_map does not carry an existing %s task over to the new map: the task (and its handshake state) is recreated on every metadata update" % v.lower())
